@@ -123,50 +123,101 @@ Proof.
   intros Ht Hu H. pose proof (join_faithful ts Ht) as A. rewrite H, (join_faithful us Hu) in A. congruence.
 Qed.
 
-(* ---------- what Dippy itself reads back: only the outer quotes are removed ---------- *)
-Lemma rev_app_last {A} (l : list A) (x : A) : rev (l ++ [x]) = x :: rev l.
-Proof. rewrite rev_app_distr. reflexivity. Qed.
-
-Lemma strip_sq_wrapped m : strip_quotes (SQ :: m ++ [SQ]) = m.
+(* ---------- what Dippy itself reads back (analyzer._strip_quotes after the quote-removal repair) ---------- *)
+Definition safe_nobs (c : N) : bool := implb (quote_safe c) (negb (N.eqb c BS)).
+Lemma safe_nobs_ascii : forallb safe_nobs ascii_codes = true.
+Proof. vm_compute. reflexivity. Qed.
+Lemma safe_not_bs c : quote_safe c = true -> N.eqb c BS = false.
 Proof.
-  unfold strip_quotes. rewrite rev_app_last. rewrite N.eqb_refl.
-  change (N.eqb SQ DQ) with false. cbn [andb orb]. apply rev_involutive.
+  intro Hs. destruct (N.ltb_spec c 128) as [Hlt|Hge].
+  - pose proof (proj1 (forallb_forall _ _) safe_nobs_ascii c (ascii_codes_complete c Hlt)) as H.
+    unfold safe_nobs in H. rewrite Hs in H. cbn [implb] in H. apply negb_true_iff in H. exact H.
+  - apply N.eqb_neq. unfold BS. lia.
 Qed.
 
-Lemma esc_sq_id s : existsb (N.eqb SQ) s = false -> esc_sq s = s.
+Lemma mem_ch_false_forall (c : N) (s : str) (P : N -> bool) :
+  (forall x, P x = true -> N.eqb x c = false) -> forallb P s = true -> mem_ch c s = false.
 Proof.
-  induction s as [|c s IH]; intro H; [reflexivity|].
-  cbn [existsb] in H. apply orb_false_iff in H as [Hc Hs].
-  unfold esc_sq in *. cbn [flat_map]. rewrite N.eqb_sym, Hc. cbn [app]. rewrite IH by exact Hs. reflexivity.
+  intros HP H. induction s as [|x s IH]; [reflexivity|].
+  cbn [forallb] in H. apply andb_true_iff in H as [Hx Hs].
+  unfold mem_ch in *. cbn [existsb]. rewrite N.eqb_sym, (HP x Hx). cbn [orb]. apply IH, Hs.
 Qed.
 
-Lemma safe_no_quote_ends s : forallb quote_safe s = true -> strip_quotes s = s.
+Lemma safe_word_plain s : forallb quote_safe s = true -> strip_quotes s = s.
 Proof.
-  intro H. destruct s as [|a r]; [reflexivity|].
-  unfold strip_quotes. destruct (rev r) as [|b mid] eqn:E; [reflexivity|].
-  cbn [forallb] in H. apply andb_true_iff in H as [Ha _].
-  destruct (safe_char a Ha) as (_ & _ & Hq & Hd). rewrite Hq, Hd. reflexivity.
+  intro H. unfold strip_quotes.
+  rewrite (mem_ch_false_forall SQ s quote_safe) by (try exact H; intros x Hx; apply (safe_char x Hx)).
+  rewrite (mem_ch_false_forall DQ s quote_safe) by (try exact H; intros x Hx; apply (safe_char x Hx)).
+  rewrite (mem_ch_false_forall BS s quote_safe) by (try exact H; intros x Hx; apply (safe_not_bs x Hx)).
+  reflexivity.
 Qed.
 
-(* re-reading is the identity exactly on words without a single quote; otherwise the ladder is
-   handed the escaped text *)
-Lemma reread_plain w : existsb (N.eqb SQ) w = false -> w <> [] -> reread w = w.
+(* inside '...' the quote-removal undoes the escaping of embedded single quotes *)
+Lemma unq_in_sq w : forall r, unq (esc_sq w ++ SQ :: r) USq = option_map (app w) (unq r UOut).
 Proof.
-  intros H Hne. unfold reread, bash_quote. destruct w as [|c t]; [congruence|].
+  induction w as [|c w IH]; intro r.
+  - cbn [esc_sq flat_map app unq]. rewrite N.eqb_refl. destruct (unq r UOut); reflexivity.
+  - unfold esc_sq in *. cbn [flat_map]. destruct (N.eqb_spec c SQ) as [->|Hn].
+    + cbn [app unq]. rewrite N.eqb_refl.
+      change (N.eqb DQ SQ) with false. change (N.eqb DQ DQ) with true. cbv iota.
+      change (N.eqb SQ DQ) with false. change (N.eqb SQ BS) with false. cbv iota.
+      change (N.eqb DQ BS) with false. cbv iota.
+      rewrite IH. destruct (unq r UOut); reflexivity.
+    + cbn [app unq]. apply N.eqb_neq in Hn. rewrite Hn. rewrite IH. destruct (unq r UOut); reflexivity.
+Qed.
+
+Lemma infix2_mem a b v : infixb [a; b] v = true -> mem_ch b v = true.
+Proof.
+  induction v as [|x v IH]; intro H; [discriminate|].
+  cbn [infixb] in H. apply orb_true_iff in H as [H|H].
+  - destruct v as [|y v]; cbn [prefixb] in H.
+    + rewrite andb_false_r in H. discriminate.
+    + apply andb_true_iff in H as [_ H]. apply andb_true_iff in H as [H _].
+      unfold mem_ch. cbn [existsb]. rewrite H. rewrite orb_true_r. reflexivity.
+  - unfold mem_ch in *. cbn [existsb]. rewrite (IH H). apply orb_true_r.
+Qed.
+
+(* the words for which re-reading is NOT the identity: a dollar sign ends up right before a quote
+   (the walker then keeps the word as written, quotes included) *)
+Definition clean (w : str) : bool := negb (has_dollar_quote (bash_quote w)).
+
+Lemma reread_clean w : clean w = true -> reread w = w.
+Proof.
+  unfold clean. rewrite negb_true_iff. intro H. unfold reread.
+  unfold bash_quote in *. destruct w as [|c t]; [reflexivity|].
   destruct (forallb quote_safe (c :: t)) eqn:E.
-  - apply safe_no_quote_ends; exact E.
-  - rewrite strip_sq_wrapped. apply esc_sq_id; exact H.
+  - apply safe_word_plain, E.
+  - unfold strip_quotes. rewrite H.
+    assert (M : mem_ch SQ (SQ :: esc_sq (c :: t) ++ [SQ]) = true) by (unfold mem_ch; cbn [existsb]; rewrite N.eqb_refl; reflexivity).
+    rewrite M. cbn [negb andb]. cbn [unq]. rewrite N.eqb_refl.
+    rewrite (unq_in_sq (c :: t) []). cbn [unq option_map]. rewrite app_nil_r. reflexivity.
 Qed.
 
-Lemma reread_empty : reread [] = [].
-Proof. reflexivity. Qed.
-
-Lemma reread_quoted w : existsb (N.eqb SQ) w = true -> reread w = esc_sq w.
+Lemma reread_dollar w : clean w = false -> reread w = bash_quote w.
 Proof.
-  intro H. unfold reread, bash_quote. destruct w as [|c t]; [discriminate|].
-  destruct (forallb quote_safe (c :: t)) eqn:E.
-  - exfalso. apply existsb_exists in H as [x [Hin Hx]]. apply N.eqb_eq in Hx; subst x.
-    pose proof (proj1 (forallb_forall _ _) E SQ Hin) as Hs.
-    destruct (safe_char SQ Hs) as (_ & _ & Hq & _). rewrite N.eqb_refl in Hq. discriminate.
-  - apply strip_sq_wrapped.
+  unfold clean. rewrite negb_false_iff. intro H. unfold reread, strip_quotes. rewrite H.
+  destruct (negb (mem_ch SQ (bash_quote w)) && negb (mem_ch DQ (bash_quote w)) && negb (mem_ch BS (bash_quote w))); reflexivity.
+Qed.
+
+(* a word with no dollar sign at all is always clean *)
+Lemma no_dollar_clean w : mem_ch DOLLAR w = false -> clean w = true.
+Proof.
+  intro H. unfold clean, has_dollar_quote. apply negb_true_iff.
+  assert (G : forall q v, mem_ch DOLLAR v = false -> infixb [DOLLAR; q] v = false).
+  { intros q v. induction v as [|x v IH]; intro Hv; [reflexivity|].
+    unfold mem_ch in Hv. cbn [existsb] in Hv. apply orb_false_iff in Hv as [Hx Hv].
+    cbn [infixb prefixb]. rewrite Hx. cbn [andb orb]. apply IH, Hv. }
+  assert (D : mem_ch DOLLAR (bash_quote w) = false).
+  { unfold bash_quote. destruct w as [|c t]; [reflexivity|].
+    destruct (forallb quote_safe (c :: t)); [exact H|].
+    unfold mem_ch. cbn [existsb]. change (N.eqb DOLLAR SQ) with false. cbn [orb].
+    rewrite existsb_app. cbn [existsb]. change (N.eqb DOLLAR SQ) with false. rewrite !orb_false_r.
+    unfold esc_sq. apply not_true_is_false. intro E. apply existsb_exists in E as [x [Hx Ex]].
+    apply in_flat_map in Hx as [y [Hy Hx]]. apply N.eqb_eq in Ex. subst x.
+    destruct (N.eqb y SQ).
+    - cbn in Hx. repeat (destruct Hx as [Hx|Hx]; [discriminate|]). destruct Hx.
+    - destruct Hx as [Hx|[]]. subst y. unfold mem_ch in H.
+      assert (existsb (N.eqb DOLLAR) (c :: t) = true) by (apply existsb_exists; exists DOLLAR; split; [exact Hy|apply N.eqb_refl]).
+      congruence. }
+  rewrite (G SQ _ D), (G DQ _ D). reflexivity.
 Qed.
